@@ -248,7 +248,8 @@ SWEEP_DOC = "constant sub-expressions of every folded operator and of `case`, co
 
 _CASES = [  # (PRQL expression, expected SQLite value, obligation)
     ("!true", 0, "SE1"), ("!false", 1, "SE1"), ("-(-3)", 3, "SE1"), ("1 == 1", 1, "SE1"), ("1 == 2", 0, "SE1"), ("1 != 2", 1, "SE1"),
-    ("'a' == 'a'", 1, "SE1"), ("'a' != 'b'", 1, "SE1"), ("null == null", 1, "SE1"), ("null != null", 0, "SE1"),
+    ("'a' == 'a'", 1, "SE1"), ("'a' != 'b'", 1, "SE1"), ("'x' == r'x'", 1, "SE1"), ("r'it' != \"it\"", 0, "SE1"), ("r'C:\\temp' == 'C:\\\\temp'", 1, "SE1"), ("r'a' == r'a'", 1, "SE1"),
+    ("'1' == 1", 0, "SE1"), ("1 == 1.0", 1, "SE1"), ("null == null", 1, "SE1"), ("null != null", 0, "SE1"),
     ("true && false", 0, "SE1"), ("true && true", 1, "SE1"), ("false || true", 1, "SE1"), ("false || false", 0, "SE1"),
     ("null ?? 3", 3, "SE1"), ("null ?? a", 7, "SE1"), ("(a == null) && true", 0, "SE1"), ("true && (n == 1)", None, "SE1"), ("false || (n == 1)", None, "SE1"),
     ("case [false => 1, true => 2, a > 1 => 3]", 2, "SE2"), ("case [false => 1]", None, "SE2"), ("case [a > 100 => 1, true => 2]", 2, "SE2"),
